@@ -170,11 +170,13 @@ fn dispatch(cfg: &Cfg, rep: &mut Report) {
         "C01" => props::sound::run(cfg, rep, &props::sound::Mode2 { prop: "C01", soundness: true }),
         "C02" => props::sound::run(cfg, rep, &props::sound::Mode2 { prop: "C02", soundness: false }),
         "C03" => props::c03::run(cfg, rep),
+        "C05" => props::c05::run(cfg, rep),
         "C08" => props::c08::run(cfg, rep),
         "C09" => props::c09::run(cfg, rep),
         "C10" => props::c10::run(cfg, rep),
         "C14" => props::c14::run(cfg, rep),
         "C15" => props::c15::run(cfg, rep),
+        "C17" => props::c17::run(cfg, rep),
         "C19" => props::c19::run(cfg, rep),
         "C20" => props::c20::run(cfg, rep),
         other => {
@@ -193,11 +195,13 @@ fn dispatch_replay(cfg: &Cfg, kind: &str, payload: &str, rep: &mut Report) {
         "C01" => props::sound::replay(payload, rep, &props::sound::Mode2 { prop: "C01", soundness: true }),
         "C02" => props::sound::replay(payload, rep, &props::sound::Mode2 { prop: "C02", soundness: false }),
         "C03" => props::c03::replay(kind, payload, rep),
+        "C05" => props::c05::replay(kind, payload, rep),
         "C08" => props::c08::replay(payload, rep),
         "C09" => props::c09::replay(payload, rep),
         "C10" => props::c10::replay(kind, payload, rep),
         "C14" => props::c14::replay(payload, rep),
         "C15" => props::c15::replay(kind, payload, rep),
+        "C17" => props::c17::replay(kind, payload, rep),
         "C19" => props::c19::replay(payload, rep),
         "C20" => props::c20::replay(kind, payload, rep),
         other => {
